@@ -33,7 +33,7 @@ def operands():
     out = [x1, x2, lambda: L.Symbol("x5", L.DataType.REAL)[x2()]]
     for z in (0, 1, -1, 3, -2):
         out.append(lambda z=z: L.LiteralInt(z))
-    for f in (0.0, 1.0, -1.0, 0.5, -2.0, -0.0):
+    for f in (0.0, 1.0, -1.0, 0.5, -2.0, -0.0, 1e-9, -4e-10, 1.0000000001):
         out.append(lambda f=f: L.LiteralFloat(f))
     out += [lambda: L.Neg(x1()), lambda: L.Neg(L.Neg(x1())), lambda: L.Neg(L.LiteralFloat(0.5)),
             lambda: L.Add(x1(), x2()), lambda: L.Mul(x1(), L.LiteralFloat(0.5)),
@@ -86,7 +86,7 @@ def run(v, tier, seed, g):
                 except ValueError:
                     r = None
                 cases.append((name, p_c16._conv(a()), p_c16._conv(b()), r))
-    nums = [0, 1, -1, 2, 0.0, 1.0, -1.0, 0.5, -2.5]
+    nums = [0, 1, -1, 2, 0.0, 1.0, -1.0, 0.5, -2.5, 1e-9, 0.9999999999]
     for name, f in ROPS:
         for a in ops:
             for n in nums:
